@@ -1,5 +1,6 @@
 import I18n.Lemmas.DomainsGenerated
 import I18n.Lemmas.GettextHdrGenerated
+import I18n.Lemmas.HdrChkGenerated
 import I18n.Props.C15
 /-!
 # C15 — the tie by translation: the header checks REGENERATED from the source are the model
@@ -92,7 +93,54 @@ theorem parse_header_items_generated (s : Str) (ys : List Line) (h : Generated.G
   rw [e]
   exact ⟨fun k v => C15.parse_header_field _ k v, fun t => C15.parse_header_stray _ t⟩
 
+/-! ## `Checker.check_project`, `Checker.check_translator` (`lib/check/__init__.py`) -/
+
+/-- `check_project(ctx)` as regenerated appends exactly the model's tag calls, in order, and raises nothing -/
+theorem generated_check_project_eq_model (x : Ext) (m : Meta) (out : List TagCall) :
+    Generated.HdrChk.check_project x m out = .ok (out ++ checkProject x m) :=
+  I18n.Hdr.Gen.check_project_eq x m out
+
+/-- `check_translator(ctx)` as regenerated appends exactly the model's tag calls, in order, and raises nothing -/
+theorem generated_check_translator_eq_model (x : Ext) (m : Meta) (tmpl : Bool) (out : List TagCall) :
+    Generated.HdrChk.check_translator x m tmpl out = .ok (out ++ checkTranslator x tmpl m) :=
+  I18n.Hdr.Gen.check_translator_eq x m tmpl out
+
+/-- **the Project-Id-Version / Report-Msgid-Bugs-To rules**, of the regenerated method: on the metadata of any header lines it
+    emits `t` iff the documented rule for one of the two fields prescribes `t` -/
+theorem check_project_rules_generated (x : Ext) (ls : List Line) (t : TagCall) :
+    (∃ ts, Generated.HdrChk.check_project x (buildMeta ls []) [] = .ok ts ∧ t ∈ ts) ↔
+      (ProjectRule x (fieldLines ls) t ∨ ReportRule x (fieldLines ls) t) := by
+  rw [generated_check_project_eq_model]
+  simp only [List.nil_append, checkProject]
+  constructor
+  · rintro ⟨ts, e, h⟩
+    injection e with e; subst e
+    rw [List.mem_append, mem_projectIdTags, mem_reportTags] at h; exact h
+  · intro h
+    exact ⟨_, rfl, by rw [List.mem_append, mem_projectIdTags, mem_reportTags]; exact h⟩
+
+/-- **the Last-Translator / Language-Team rules**, of the regenerated method -/
+theorem check_translator_rules_generated (x : Ext) (f : File) (ls : List Line) (t : TagCall) :
+    (∃ ts, Generated.HdrChk.check_translator x (buildMeta ls []) f.kind.isTemplate [] = .ok ts ∧ t ∈ ts) ↔
+      (TranslatorRule x f (fieldLines ls) t ∨ TeamRule x f (fieldLines ls) t) := by
+  rw [generated_check_translator_eq_model]
+  simp only [List.nil_append]
+  constructor
+  · rintro ⟨ts, e, h⟩
+    injection e with e; subst e
+    exact (mem_checkTranslator_rule x f ls t).1 h
+  · intro h
+    exact ⟨_, rfl, (mem_checkTranslator_rule x f ls t).2 h⟩
+
+/-- **value_reports_once**, of the regenerated methods: no diagnostic twice, whatever the multiplicity of fields and values -/
+theorem value_reports_once_generated (x : Ext) (tmpl : Bool) (m : Meta) :
+    (∃ ts, Generated.HdrChk.check_project x m [] = .ok ts ∧ ts.Nodup) ∧
+    (∃ ts, Generated.HdrChk.check_translator x m tmpl [] = .ok ts ∧ ts.Nodup) := by
+  rw [generated_check_project_eq_model, generated_check_translator_eq_model]
+  exact ⟨⟨_, rfl, by simpa using (C15.value_reports_once x tmpl m).2.2.1⟩, ⟨_, rfl, by simpa using (C15.value_reports_once x tmpl m).2.2.2.1⟩⟩
+
 /-! Non-vacuity -/
+
 
 example : Generated.GettextHdr.parse_header "A: b \nstray\nX-y:\tz\n".toList =
     .ok [.field "A".toList "b".toList, .stray "stray".toList, .field "X-y".toList "z".toList] := by
